@@ -32,6 +32,13 @@ import (
 
 var procsList = []int{1, 2, 5}
 
+// decoder counts outside the documented range (Start clamps n < 1 to 1): every class also runs with
+// one of them, rotating
+var oddProcs = []int{0, -1, -7}
+var oddRot int
+
+func oddProc() int { oddRot++; return oddProcs[oddRot%len(oddProcs)] }
+
 type file struct {
 	seed   int64
 	opts   pbfgen.Opts
@@ -144,6 +151,8 @@ type run struct {
 	Objs    []uint64
 	Outcome int64
 	Msg     string
+	// FullyScannedBytes / PreviousFullyScannedBytes once Scan has returned false
+	EndFSB, EndPFSB int64
 }
 
 // ---- truncation ----
@@ -165,6 +174,7 @@ func emitTrunc(procs int, fds []pbfrun.FrameDesc, runs []run) *wire.Case {
 		c.Int(int64(rn.Lo)).Int(int64(rn.Hi))
 		pbfrun.EmitToks(c, rn.Objs)
 		c.Int(rn.Outcome)
+		c.Int(rn.EndFSB).Int(rn.EndPFSB)
 	}
 	return c
 }
@@ -202,10 +212,11 @@ func truncCase(w *wire.Writer, r *pbfrun.Runner, f *file, procs int, headerFirst
 		if o.Crash {
 			msg = o.CrashMsg
 		}
-		if n := len(runs); n > 0 && runs[n-1].Outcome == oc && eqToks(runs[n-1].Objs, o.Objs) && runs[n-1].Hi+1 == o.Unit {
+		if n := len(runs); n > 0 && runs[n-1].Outcome == oc && eqToks(runs[n-1].Objs, o.Objs) && runs[n-1].Hi+1 == o.Unit &&
+			runs[n-1].EndFSB == o.EndFSB && runs[n-1].EndPFSB == o.EndPFSB {
 			runs[n-1].Hi = o.Unit
 		} else {
-			runs = append(runs, run{o.Unit, o.Unit, append([]uint64{}, o.Objs...), oc, msg})
+			runs = append(runs, run{o.Unit, o.Unit, append([]uint64{}, o.Objs...), oc, msg, o.EndFSB, o.EndPFSB})
 		}
 	}
 	// Go-side oracle: objects of the blocks wholly before the cut; success iff boundary
@@ -555,7 +566,7 @@ func sessionCase(w *wire.Writer, r *pbfrun.Runner, f *file, k int, rng *rand.Ran
 		calls = append(calls, rng.Intn(3))
 	}
 	calls = append(calls, 0, 1, 2, 0, 1)
-	procs := procsList[rng.Intn(len(procsList))]
+	procs := append(append([]int{}, procsList...), oddProcs...)[rng.Intn(len(procsList)+len(oddProcs))]
 	obs, err := r.Run(pbfrun.Job{Data: f.data, Procs: procs, Mode: "session", Units: []int{k}, Calls: calls})
 	if err != nil {
 		return nil, err
@@ -653,9 +664,10 @@ func skipDamageCase(w *wire.Writer, r *pbfrun.Runner, base *file, dm *dmg, pos i
 	c.Bool(skip[2])
 	pbfrun.EmitFrames(c, fds)
 	c.Int(int64(di))
-	c.Len(len(procsList))
+	ps := append(append([]int{}, procsList...), oddProc())
+	c.Len(len(ps))
 	var seen []interface{}
-	for _, p := range procsList {
+	for _, p := range ps {
 		obs, err := r.Run(pbfrun.Job{Data: f.data, Procs: p, Skip: skip, Mode: "cut", Units: []int{len(f.data)}})
 		if err != nil {
 			return nil, err
@@ -665,6 +677,7 @@ func skipDamageCase(w *wire.Writer, r *pbfrun.Runner, base *file, dm *dmg, pos i
 		c.Int(int64(p))
 		pbfrun.EmitToks(c, o.Objs)
 		c.Int(oc)
+		c.Int(o.EndFSB).Int(o.EndPFSB)
 		seen = append(seen, map[string]interface{}{"procs": p, "objs": o.Objs, "outcome": oc, "msg": o.ErrText + o.CrashMsg})
 		if c.OracleFail == "" && (oc != 0 || !eqToks(o.Objs, exp)) {
 			c.OracleFail = fmt.Sprintf("damage %s at block %d inside an element kind the scan skips (skip %v), procs %d: %d objects outcome %d (%s), expected the %d objects of the other kinds and no error",
@@ -721,7 +734,7 @@ func observeDamage(w *wire.Writer, r *pbfrun.Runner, f *file, name string, pos i
 	}
 	// more decoders than the channel budget (unbuffered channels): the pipeline must still wind
 	// down after the error, Close included
-	cfgs = append(cfgs, runCfg{16, false})
+	cfgs = append(cfgs, runCfg{16, false}, runCfg{oddProc(), false})
 	if di == 0 { // damage in the first block: also Header() first, then the Scan loop
 		cfgs = append(cfgs, runCfg{1, true}, runCfg{5, true})
 	}
@@ -731,6 +744,8 @@ func observeDamage(w *wire.Writer, r *pbfrun.Runner, f *file, name string, pos i
 		Objs    []uint64 `json:"objs"`
 		Outcome int64    `json:"outcome"`
 		Msg     string   `json:"msg"`
+		EndFSB  int64    `json:"end_fsb"`
+		EndPFSB int64    `json:"end_pfsb"`
 	}
 	var obsl []ob
 	for _, rc := range cfgs {
@@ -756,6 +771,7 @@ func observeDamage(w *wire.Writer, r *pbfrun.Runner, f *file, name string, pos i
 		c.Int(int64(p))
 		pbfrun.EmitToks(c, o.Objs)
 		c.Int(oc)
+		c.Int(o.EndFSB).Int(o.EndPFSB)
 		msg := o.ErrText + o.CrashMsg
 		if o.Hang {
 			msg += "the scan did not return (killed by the watchdog)"
@@ -764,7 +780,7 @@ func observeDamage(w *wire.Writer, r *pbfrun.Runner, f *file, name string, pos i
 			msg = "[Header() called first] " + msg
 			w.Count(fmt.Sprintf("damage:header_first:outcome=%d", oc))
 		}
-		obsl = append(obsl, ob{p, o.Objs, oc, msg})
+		obsl = append(obsl, ob{p, o.Objs, oc, msg, o.EndFSB, o.EndPFSB})
 		good := oc == 1 && eqToks(o.Objs, exp)
 		if tag == 4 {
 			good = good || (oc == 0 && eqToks(o.Objs, all))
@@ -809,6 +825,7 @@ func observeDamage(w *wire.Writer, r *pbfrun.Runner, f *file, name string, pos i
 				d.Int(int64(o.Procs))
 				pbfrun.EmitToks(d, objs)
 				d.Int(oc)
+				d.Int(o.EndFSB).Int(o.EndPFSB)
 			}
 			d.Bool(false)
 			d.Desc = map[string]interface{}{"kind": "canary of a damage case", "class": name}
@@ -831,9 +848,10 @@ func wholeCase(w *wire.Writer, r *pbfrun.Runner, f *file, class string) (*wire.C
 	c := &wire.Case{Class: class}
 	c.Int(3)
 	pbfrun.EmitFrames(c, fds)
-	c.Len(len(procsList))
+	ps := append(append([]int{}, procsList...), oddProc())
+	c.Len(len(ps))
 	var seen []interface{}
-	for _, p := range procsList {
+	for _, p := range ps {
 		obs, err := r.Run(pbfrun.Job{Data: f.data, Procs: p, Mode: "cut", Units: []int{len(f.data)}})
 		if err != nil {
 			return nil, err
@@ -843,6 +861,7 @@ func wholeCase(w *wire.Writer, r *pbfrun.Runner, f *file, class string) (*wire.C
 		c.Int(int64(p))
 		pbfrun.EmitToks(c, o.Objs)
 		c.Int(oc)
+		c.Int(o.EndFSB).Int(o.EndPFSB)
 		seen = append(seen, map[string]interface{}{"procs": p, "objs": o.Objs, "outcome": oc, "msg": o.ErrText + o.CrashMsg})
 		if c.OracleFail == "" && (oc != 0 || !eqToks(o.Objs, exp)) {
 			c.OracleFail = fmt.Sprintf("%s, procs %d: a valid file gave %d objects outcome %d (%s), expected %d objects and no error",
@@ -1057,6 +1076,14 @@ func main() {
 			fail(err)
 		}
 		w.Add(c)
+		// ... and with a decoder count below 1 (every second file)
+		if i%2 == 0 {
+			c, err := truncCase(w, r, f, oddProc(), i%4 == 0)
+			if err != nil {
+				fail(err)
+			}
+			w.Add(c)
+		}
 		// call scripts (Scan / Err / Header in any order, continued after the end) at some cuts
 		cuts := []int{0, 4, len(f.data)}
 		for j := 0; j < 5; j++ {
@@ -1271,6 +1298,14 @@ func main() {
 			c.Canary, c.Class, c.Desc = 1, "canary", "trunc canary: cut 1 reported as success"
 			w.Add(c)
 		}
+	}
+	if lastTrunc != nil {
+		// (4) the offset reported after the last cut's scan off by one
+		rs := copyRuns(lastTrunc.runs)
+		rs[len(rs)-1].EndFSB++
+		c := emitTrunc(lastTrunc.procs, lastTrunc.fds, rs)
+		c.Canary, c.Class, c.Desc = 1, "canary", "trunc canary: FullyScannedBytes after the last scan off by one"
+		w.Add(c)
 	}
 	if lastDamage != nil {
 		w.Add(lastDamage(func(objs []uint64, oc int64) ([]uint64, int64) { return objs, 0 }))
